@@ -175,7 +175,7 @@ func fieldName(t types.Type, i int) string {
 		t = p.Elem()
 	}
 	if s, ok := t.Underlying().(*types.Struct); ok && i < s.NumFields() {
-		return s.Field(i).Name()
+		return FieldName(s, i)
 	}
 	return fmt.Sprintf("#%d", i)
 }
@@ -526,4 +526,12 @@ func ControlConds(b *ssa.BasicBlock) []Cond {
 	}
 	visit(b.Index)
 	return out
+}
+
+// FieldName: the name of field i of st as the rules know it (a renamed field keeps its old name, see anchors.go).
+func FieldName(st *types.Struct, i int) string {
+	if a, has := fieldAliases[st][i]; has {
+		return a
+	}
+	return st.Field(i).Name()
 }
